@@ -174,3 +174,91 @@ def c20_target(spec):
     if ending == 'exit':
         sys.exit(3)
     return ('done', n)
+
+
+# ----------------------------------------------------------------------------- C18 targets
+def digest(obj):
+    import hashlib
+    import pickle
+
+    if isinstance(obj, (bytes, bytearray)):
+        b = bytes(obj)
+    else:
+        b = pickle.dumps(obj, protocol=4)
+    return (type(obj).__name__, len(b), hashlib.sha256(b).hexdigest()[:16])
+
+
+def c18_server(path, ready_path=None):
+    """Socket server process.  Routes:
+    /tagged  data = (tag, latency_s, fail, payload) -> (tag, digest(payload)) after the latency, or KeyError(tag)
+    /raw     data = payload -> digest(payload)
+    /echo    data = payload -> payload
+    /noarg   (no data)      -> 'noarg-ok'"""
+    import asyncio
+
+    from mpservice.socket import SocketApplication, make_server
+
+    async def tagged(data):
+        tag, latency, fail, payload = data
+        if latency:
+            await asyncio.sleep(latency)
+        else:
+            await asyncio.sleep(0)
+        if fail:
+            raise KeyError(tag)  # SITE-MARK-C18 handler
+        return (tag, digest(payload))
+
+    async def raw(data):
+        await asyncio.sleep(0)
+        return digest(data)
+
+    async def echo(data):
+        return data
+
+    async def noarg():
+        return 'noarg-ok'
+
+    app = SocketApplication()
+    app.add_route('/tagged', tagged)
+    app.add_route('/raw', raw)
+    app.add_route('/echo', echo)
+    app.add_route('/noarg', noarg)
+    server = make_server(app, path=path)
+    asyncio.run(server.serve())
+
+
+def c18_pipe_peer(path, role, script):
+    """Named-pipe peer in its own process. script: list of ['send', spec] | ['recv'] ; returns digests of what it received."""
+    from mpservice.pipe import Client, Server
+
+    p = (Server if role == 'server' else Client)(path)
+    got = []
+    for step in script:
+        if step[0] == 'send':
+            p.send(make_payload(step[1]))
+        else:
+            got.append(digest(p.recv()))
+    return got
+
+
+def make_payload(spec):
+    """JSON-able payload specs -> objects."""
+    kind = spec[0]
+    if kind == 'bytes':
+        n, seed = spec[1], spec[2]
+        import random
+
+        r = random.Random(seed)
+        if n <= 64:
+            return bytes(r.randrange(256) for _ in range(n))
+        block = bytes(r.randrange(256) for _ in range(61))
+        return (block * (n // 61 + 1))[:n]
+    if kind == 'literal':
+        return {'nl': b'\n', 'header': b'123 45 pickle\n', 'header2': b'7 3 none\nabc', 'empty': b'', 'zero': 0, 'false': False, 'estr': '', 'elist': [],
+                'edict': {}, 'fzero': 0.0, 'etuple': (), 'str-nl': 'line1\nline2\n', 'unicode': 'héllo ✓ 日本'}[spec[1]]
+    if kind == 'nested':
+        n = spec[1]
+        return {'k': [list(range(n)), {'a': ('t', n), 'b': [b'x' * n, None, 1.5]}], 'n': n, 's': 's' * n}
+    if kind == 'str':
+        return 'é' * spec[1]
+    raise ValueError(kind)
